@@ -370,7 +370,7 @@ theorem lockInvIds_step (c : Cfg ε) (hc : c.caching = true) (hns : NoSing c) (h
     (room : Room c a nt) : LockInvIds c f g a' b' := by
   have hliveAll : ∀ ph pa id r, a.table.runAt ph pa id = some r → r.run.halted = false :=
     fun ph pa id r hr => h.inv.liveA ph pa id r (h.idsA.known ph pa id r hr) hr
-  obtain ⟨hnextA, hmem, hsep, hfin, hidsA0⟩ := local_ids c hc hcw f G.injA (Issued f g a.nextId b.nextId) a a' e nt ch
+  obtain ⟨hnextA, hmem, hsep, hfin, hidsA0, _⟩ := local_ids c hc hcw f G.injA (Issued f g a.nextId b.nextId) a a' e nt ch
     h.inv.wfA hliveAll h.idsA (fun k hk => not_issued_fresh G a.nextId b.nextId k hk) hA room.evC room.evH
   have hidsA' : IdInv c (Issued f g a'.nextId b.nextId) a' := by
     refine hidsA0.mono ?_
@@ -475,7 +475,7 @@ theorem split_stream_mirror_n (c : Cfg ε) (hc : c.caching = true) (hns : NoSing
       rintro k hk ⟨i', k', hk', e'⟩
       obtain ⟨e1, e2⟩ := G i i' k k' e'
       subst e1 e2; omega
-    obtain ⟨hnextI, hmem, hsep, hfin, hidsI0⟩ := local_ids c hc hcw (f i) injI (IssuedN f node) (node i) (node' i) e nt ch
+    obtain ⟨hnextI, hmem, hsep, hfin, hidsI0, _⟩ := local_ids c hc hcw (f i) injI (IssuedN f node) (node i) (node' i) e nt ch
       (ih.wf i) hliveAll (ih.ids i) hfr hA room.evC room.evH
     have hyg : Hygiene c (node i) (node' i) nt := ⟨room.evC, room.evH, hmem, hsep, hfin⟩
     -- each replica against the originator
